@@ -154,6 +154,64 @@ Definition spec_invalid_doc (j : json) : bool :=
 Definition eff_type (j : json) : string :=
   match j with JObj ms => str_or_empty "type" ms | _ => "" end.
 
+(* ---- signalling data for the media server ("Media publishing" / "Receive media" in the
+   documentation): {"type", "sid", "roomType": audio|video|screen, "payload": {...}, "bitrate",
+   codecs}; an offer / answer carries the SDP as string "sdp" of the payload.  When the server
+   has a media server it validates such data in messages to a session and - for a sender that
+   is in a room - to the room / the call, and answers invalid data with an error (no_sdp,
+   invalid_sdp, invalid_format); nobody else sees anything.  As above one direction only:
+   data that has the documented shape (every defined member of the documented kind) but breaks
+   one of these rules.  [sdp_ok]: the text parses as a session description (oracle). *)
+Definition stream_types : list string := ["audio"; "video"; "screen"].
+Definition all_strings (k : string) (ms : members) : bool := forallb is_string (nonnull_occurrences k ms).
+Definition small_int (j : json) : bool :=
+  match j with JNum z => (Z.abs z <? 2 ^ 31)%Z | _ => false end.
+Definition media_string_members : list string :=
+  ["type"; "sid"; "roomType"; "audiocodec"; "videocodec"; "vp9profile"; "h264profile"].
+
+Definition media_data_shaped (dms : members) : bool :=
+  forallb (fun k => all_strings k dms) media_string_members &&
+  forallb small_int (nonnull_occurrences "bitrate" dms) &&
+  match nonnull_occurrences "payload" dms with
+  | [] => true
+  | [JObj pms] => forallb (fun kv => iface_ok (snd kv)) pms
+  | _ => false
+  end.
+
+Definition media_data_invalid (sdp_ok : string -> bool) (dms : members) : bool :=
+  let rt := str_or_empty "roomType" dms in
+  (negb (String.eqb rt "") && negb (in_list rt stream_types)) ||
+  (in_list (str_or_empty "type" dms) ["offer"; "answer"] &&
+   match nonnull_occurrences "payload" dms with
+   | [JObj pms] =>
+       match lookup_last "sdp" pms with
+       | Some (JStr s) => negb (sdp_ok s)
+       | _ => true                                        (* no "sdp", null, not a string *)
+       end
+   | _ => true
+   end).
+
+(* the document is a "message" to a recipient for which the media data is validated
+   ([inroom]: the sender is in a room) and its data is shaped, but invalid, media data *)
+Definition media_invalid_doc (sdp_ok : string -> bool) (inroom : bool) (j : json) : bool :=
+  match j with
+  | JObj ms =>
+      String.eqb (str_or_empty "type" ms) "message" &&
+      match single_obj "message" ms with
+      | Some m =>
+          match single_obj "recipient" m, nonnull_occurrences "data" m with
+          | Some rc, [JObj dms] =>
+              let rty := str_or_empty "type" rc in
+              (String.eqb rty "session" || (in_list rty ["room"; "call"] && inroom)) &&
+              Nat.leb (json_depth (JObj dms)) 1000 &&
+              media_data_shaped dms && media_data_invalid sdp_ok dms
+          | _, _ => false
+          end
+      | None => false
+      end
+  | _ => false
+  end.
+
 (* ---- observations of the implementation ---------------------------------------------------- *)
 (* a message the sender received, projected *)
 Inductive reply :=
@@ -178,22 +236,31 @@ Record obs := {
   o_by : list bmsg;                  (* everything the bystander session received *)
   o_by_ok : bool;                    (* the bystander is still connected, in its room, and gets an answer *)
   o_dsame : bool;                    (* the digest of all hub tables is the same before and after *)
-  o_api : Z                          (* the room API request waiting for a dialout response: 0 still waiting / none,
+  o_api : Z;                         (* the room API request waiting for a dialout response: 0 still waiting / none,
                                         HTTP status when it completed, -1 connection closed without reply *)
+  o_off : Z                          (* how many messages the frame added to the queue of the session without connection
+                                        (that queue is not part of the digest compared in o_dsame) *)
 }.
-Definition mkobs (alive : bool) (replies : list reply) (closed : bool) (by_ : list bmsg) (by_ok dsame : bool) (api : Z) : obs :=
-  {| o_alive := alive; o_replies := replies; o_closed := closed; o_by := by_; o_by_ok := by_ok; o_dsame := dsame; o_api := api |}.
+Definition mkobs (alive : bool) (replies : list reply) (closed : bool) (by_ : list bmsg) (by_ok dsame : bool) (api off : Z) : obs :=
+  {| o_alive := alive; o_replies := replies; o_closed := closed; o_by := by_; o_by_ok := by_ok; o_dsame := dsame; o_api := api;
+     o_off := off |}.
 
 (* ---- session states of the harness ----------------------------------------------------------
    0 no hello yet; 1 authenticated client, not in a room; 2 client in the room of the
    bystander; 3 internal client in that room; 4 internal client (dialout feature, not
    in a room) with a pending dialout whose message id is written "@PID@"; 5 a client
    in the room whose session was resumed on a new connection; 6 a client whose session
-   joined a federated room.  The hub has a media server in all of them. *)
+   joined a federated room.  The hub has a media server in all of them, and in all of them
+   the room of the bystander has a second member, of user "user9", whose connection was
+   interrupted (the session "@OID@" is kept to be resumed; it is in the call, the bystander
+   and the senders are not). *)
 Definition pending_id : string := "@PID@".
+Definition offline_id : string := "@OID@".
+Definition offline_user : string := "user9".
 Definition state_of (tag : N) : session_state :=
   let mk k fed pend inroom :=
-    {| ss_kind := k; ss_federated := fed; ss_pending := pend; ss_mcu := true; ss_inroom := inroom |} in
+    {| ss_kind := k; ss_federated := fed; ss_pending := pend; ss_mcu := true; ss_inroom := inroom;
+       ss_offline := [offline_id]; ss_offline_users := [offline_user]; ss_offline_room := inroom; ss_offline_call := inroom |} in
   match tag with
   | 0%N => mk SNone false [] false
   | 1%N => mk SClient false [] false
@@ -209,11 +276,22 @@ Definition is_error (r : reply) : bool := match r with RError _ _ => true | _ =>
 
 (* input that must have no effect: it fails validation, or it is anything but a
    hello on a connection without session *)
-Definition must_be_inert (tag : N) (i : input) : bool :=
+Definition tag_inroom (tag : N) : bool := N.eqb tag 2 || N.eqb tag 3 || N.eqb tag 5.
+Definition tag_local_session (tag : N) : bool := negb (N.eqb tag 0) && N.leb tag 5.   (* a session, not federated *)
+Definition must_be_inert (sdp_ok : string -> bool) (tag : N) (i : input) : bool :=
   match i with
   | IOversize => false
   | IBinary | IBad => true
-  | IDoc j => spec_invalid_doc j || (N.eqb tag 0 && negb (String.eqb (eff_type j) "hello"))
+  | IDoc j => spec_invalid_doc j || (N.eqb tag 0 && negb (String.eqb (eff_type j) "hello")) ||
+              (tag_local_session tag && media_invalid_doc sdp_ok (tag_inroom tag) j)
+  end.
+
+(* only these messages can make the server send something to the members of a room or to
+   another session - so only they can add to the queue of a session without connection *)
+Definition off_allowed (tag : N) (i : input) : bool :=
+  match i with
+  | IDoc j => negb (N.eqb tag 0) && in_list (eff_type j) ["message"; "control"; "room"; "bye"; "internal"; "transient"]
+  | _ => false
   end.
 
 (* what a bystander may legitimately receive because of a message of that type *)
@@ -243,24 +321,28 @@ Definition by_allowed_opaque (tag : N) (b : bmsg) : bool :=
 
 Definition P_opaque (tag : N) (o : obs) : bool :=
   o_alive o && forallb reply_wf (o_replies o) && o_by_ok o &&
-  forallb (by_allowed_opaque tag) (o_by o) && negb (Z.eqb (o_api o) (-1)).
+  forallb (by_allowed_opaque tag) (o_by o) && negb (Z.eqb (o_api o) (-1)) &&
+  (Z.eqb (o_off o) 0 || negb (N.eqb tag 0)).
 
-Definition P_one (tag : N) (i : input) (o : obs) : bool :=
+Definition P_one (sdp_ok : string -> bool) (tag : N) (i : input) (o : obs) : bool :=
   o_alive o && forallb reply_wf (o_replies o) && o_by_ok o &&
   forallb (by_allowed tag i) (o_by o) &&
   negb (Z.eqb (o_api o) (-1)) &&
-  (negb (must_be_inert tag i) ||
+  (Z.eqb (o_off o) 0 || off_allowed tag i) &&
+  (negb (must_be_inert sdp_ok tag i) ||
    (match o_replies o with [r] => is_error r | _ => false end &&
-    match o_by o with [] => true | _ => false end && o_dsame o && negb (o_closed o) && Z.eqb (o_api o) 0)).
+    match o_by o with [] => true | _ => false end && o_dsame o && negb (o_closed o) && Z.eqb (o_api o) 0 &&
+    Z.eqb (o_off o) 0)).
 
 Definition step := (N * option input * obs)%type.
 Definition mkstep (tag : N) (i : input) (o : obs) : step := (tag, Some i, o).
 Definition mkopaque (tag : N) (o : obs) : step := (tag, None, o).
 Definition trace := list step.
-Definition P_step (s : step) : bool :=
+Definition P_step (sdp_ok : string -> bool) (s : step) : bool :=
   let '(tag, i, o) := s in
-  match i with Some i => P_one tag i o | None => P_opaque tag o end.
-Definition P_C10 (tr : trace) : bool := forallb P_step tr.
+  match i with Some i => P_one sdp_ok tag i o | None => P_opaque tag o end.
+(* [sdp_ok]: which strings the SDP parser accepts (tabulated from the real library for the strings of the case) *)
+Definition P_C10 (sdp_ok : string -> bool) (tr : trace) : bool := forallb (P_step sdp_ok) tr.
 
 (* ---- comparison with the model ------------------------------------------------------------------ *)
 (* A string as it leaves the server: the JSON writer replaces every byte that does
@@ -363,7 +445,35 @@ Definition doc_id (i : input) : string :=
   end.
 
 Definition silent (o : obs) : bool :=
-  match o_by o with [] => true | _ => false end && o_dsame o && negb (o_closed o) && Z.eqb (o_api o) 0.
+  match o_by o with [] => true | _ => false end && o_dsame o && negb (o_closed o) && Z.eqb (o_api o) 0 &&
+  Z.eqb (o_off o) 0.
+
+(* what the frame adds to the queue of the session without connection: a forwarded message
+   exactly one entry (a chat-refresh notice none when one is queued already: that flag is the
+   hub model's, here both are accepted); a control message one, or none when the sender may not
+   send control messages (the permission is the hub model's); a message that is not forwarded
+   none; what the other handlers send to room members is not bounded here *)
+Definition is_store (c : call) : bool := match c with CStore _ => true | _ => false end.
+Definition off_expected (cs : list call) (n : Z) : bool :=
+  match cs with
+  | CMessage _ _ _ _ _ :: r =>
+      match r with
+      | [CStore false] => Z.eqb n 1
+      | [CStore true] => Z.eqb n 0 || Z.eqb n 1
+      | _ => Z.eqb n 0 ||
+             (* "sendoffer": the offer the media server answers with is sent to the recipient *)
+             match cs with
+             | [CMessage _ _ _ _ (Some d)] => String.eqb (sfld "Type" d) "sendoffer" && Z.eqb n 1
+             | _ => false
+             end
+      end
+  | CControl _ _ _ _ :: r =>
+      match r with
+      | [CStore _] => Z.eqb n 0 || Z.eqb n 1
+      | _ => Z.eqb n 0
+      end
+  | _ => negb (existsb is_store cs)
+  end.
 
 Definition agrees (v : verdict) (i : input) (o : obs) : bool :=
   match v with
@@ -376,7 +486,8 @@ Definition agrees (v : verdict) (i : input) (o : obs) : bool :=
       o_alive o &&
       forallb (fun r => existsb (fun c => reply_allowed (wire (doc_id i)) c r) cs) (o_replies o) &&
       Bool.eqb (has_bye cs) (o_closed o) &&
-      Z.eqb (expected_api cs) (o_api o)
+      Z.eqb (expected_api cs) (o_api o) &&
+      off_expected cs (o_off o)
   end.
 
 Definition inert_verdict (v : verdict) : bool :=
@@ -405,7 +516,7 @@ Definition judge (c : case) : list (N * N * N) :=
                           match i with Some i => negb (agrees (model fixed tbl tag i) i o) | None => false end) 0 tr with
      | Some k => [(id, 1%N, k)] | None => [] end
    else []) ++
-  (match first_where (fun s => negb (P_step s)) 0 tr with
+  (match first_where (fun s => negb (P_step (orc_lookup 2 tbl) s)) 0 tr with
    | Some k => [(id, 2%N, k)] | None => [] end) ++
   (if N.eqb mode 0 then
      match first_where (fun s => let '(tag, i, o) := s in
